@@ -324,12 +324,15 @@ func (b *Balloon) QueryDigestMembershipConsistency(keyDigest hashing.Digest, ver
 	var err error
 	proof.Hasher = b.hasherF()
 	proof.KeyDigest = keyDigest
-	proof.QueryVersion = version
 	proof.CurrentVersion = b.version - 1
 
 	if version > proof.CurrentVersion {
 		version = proof.CurrentVersion
 	}
+	// the version the proof is computed for (a query beyond the current
+	// version is answered at the current one): the public form of the proof
+	// rebuilds the history proof from this field
+	proof.QueryVersion = version
 
 	proof.HyperProof, err = b.hyperTree.QueryMembership(keyDigest)
 	if err != nil {
